@@ -559,8 +559,11 @@ func genWindowScript(rt *rapid.T) *Script {
 	sc := &Script{Config: Config{Disk: chance(rt, 25, "disk"), Handles: rapid.IntRange(1, 2).Draw(rt, "handles"), Colls: allCollNames[:1]}, Extra: map[string]any{}}
 	doc := map[string]any{"p0": 1.0, "p1": "x", "nest": map[string]any{"a": 1.0}}
 	sc.Prefix = []Op{{K: "WriteWithXattrs", Key: "a", Body: mustJSON(doc), X: map[string]string{"_sync": `{"seq":1}`}, Cas: CasSpec{Kind: "zero"}}}
-	if chance(rt, 15, "win.tomb") {
+	switch {
+	case chance(rt, 15, "win.tomb"):
 		sc.Prefix = append(sc.Prefix, Op{K: "Delete", Key: "a"})
+	case chance(rt, 12, "win.absent"):
+		sc.Prefix = nil // the key does not exist at all when A reads
 	}
 	kindA := pick(rt, []string{"WriteSubDoc", "WriteSubDoc", "SubdocInsert", "Update", "WriteUpdateWithXattrs"}, "win.a")
 	a := Op{K: kindA, Key: "a"}
@@ -735,10 +738,12 @@ func runWindowScript(prop string) func(sc *Script) ([]Deviation, *scriptRun, err
 				if !final.Equal(afterB) {
 					bad("window.same", "%s failed (%s) but the document changed", a.Op.K, a.Res.Err)
 				}
-				if a.Res.Err == "cas" {
+				if a.Res.Err == "cas" || a.Res.Err == "exists" || a.Res.Err == "missing" {
 					// "no concurrent update of another property is lost" is kept by failing too, but a
-					// cas-0 sub-document write is documented to ignore CAS conflicts: it must not report one
-					bad("window.retry", "%s with cas 0 reported a CAS mismatch after %s changed the document in its window", a.Op.K, b.Op.K)
+					// cas-0 sub-document write is an unconditional read-modify-write: applied atomically
+					// after B it succeeds on this document (a JSON object), so it must not report a
+					// conflict with the write that slipped into its window
+					bad("window.retry", "%s with cas 0 failed (%s) after %s changed the document in its window, although the document then was %q", a.Op.K, a.Res.Err, b.Op.K, afterB.Body)
 				}
 				return
 			}
@@ -747,9 +752,6 @@ func runWindowScript(prop string) func(sc *Script) ([]Deviation, *scriptRun, err
 				bad("window.lost", "%s (cas 0) raced with %s: final document %q, expected %s's result with A's property: %s (after B: %q)", a.Op.K, b.Op.K, final.Body, b.Op.K, want, afterB.Body)
 			}
 		case "Update", "WriteUpdateWithXattrs":
-			if a.Op.K == "WriteUpdateWithXattrs" && !before.HasBody() {
-				return // resurrecting a tombstone is not CAS-checked (pinned by TestNoCasOnResurrection)
-			}
 			if !aOK {
 				// giving up is allowed (the properties only forbid storing on top of a version the
 				// callback was not shown), but then nothing may have changed
@@ -780,7 +782,10 @@ func runWindowScript(prop string) func(sc *Script) ([]Deviation, *scriptRun, err
 					}
 				}
 			}
-			if len(a.Res.Cb) < 2 {
+			// (Update shows its callback the body only: a change that leaves the body as it was - an
+			// xattr written to a document without body - does not call for a second invocation)
+			visible := a.Op.K == "WriteUpdateWithXattrs" || afterB.HasBody() != before.HasBody() || string(afterB.Body) != string(before.Body)
+			if len(a.Res.Cb) < 2 && visible {
 				bad("window.shown", "%s invoked its callback only once although the document changed before its write", a.Op.K)
 			}
 		}
@@ -836,27 +841,78 @@ func TestC18Race(t *testing.T) {
 
 type cpRun struct {
 	col      *Collector
-	maxCas   uint64 // highest CAS its callback received
+	maxCas   map[int]uint64 // per collection: highest CAS its callback received
 	received int
 	stopped  bool
-	prevCp   uint64
+	prevCp   map[int]uint64
+}
+
+// cpFeedColls: the collections the checkpointed feed of a script covers (one: Collection.StartDCPFeed;
+// several: Bucket.StartDCPFeed with Scopes, i.e. one independent part per collection, each with its
+// own checkpoint document in its own collection).
+func cpFeedColls(sc *Script) []int {
+	if m, _ := sc.Extra["multi"].(bool); m {
+		return []int{1, 2}
+	}
+	return []int{0}
 }
 
 func genCheckpointScript(rt *rapid.T) *Script {
+	multi := chance(rt, 40, "cp.multi")
 	sc := &Script{Config: Config{Disk: chance(rt, 30, "disk"), Handles: rapid.IntRange(1, 2).Draw(rt, "handles"), Colls: allCollNames[:1]}, Extra: map[string]any{}}
+	if multi {
+		sc.Config.Colls = allCollNames[:3]
+		sc.Extra["multi"] = true
+	}
+	fcolls := cpFeedColls(sc)
 	// with a clock that stands still consecutive mutations get consecutive CAS values (cas, cas+1, ...)
 	sc.Extra["frozenClock"] = chance(rt, 50, "cp.frozen")
 	keys := []string{"a", "b", "c", "d"}
-	for _, k := range keys[:2] {
-		sc.Prefix = append(sc.Prefix, Op{K: "Set", Key: k, Body: []byte(`{"n":0}`)})
+	for _, ci := range fcolls {
+		for _, k := range keys[:2] {
+			sc.Prefix = append(sc.Prefix, Op{K: "Set", C: ci, Key: k, Body: []byte(`{"n":0}`)})
+		}
 	}
 	n := rapid.IntRange(6, 18).Draw(rt, "cp.steps")
 	lane := 0
-	feedOn, parkedW, gatedGen := false, "", false
+	feedOn, parkedW := false, ""
+	gatedGen := map[string]bool{} // "" = every collection of the feed, else one collection index
+	anyGated := func() bool {
+		for _, g := range gatedGen {
+			if g {
+				return true
+			}
+		}
+		return false
+	}
+	gateTarget := func() string {
+		if !multi || chance(rt, 30, "cp.gateall") {
+			return ""
+		}
+		return fmt.Sprint(pick(rt, fcolls, "cp.gatecoll"))
+	}
+	write := func(park bool) {
+		op := genLaneOp(rt, lane, keys, 1)
+		op.C = pick(rt, fcolls, "cp.wcoll")
+		if op.K == "SetWithMeta" {
+			op.K, op.MetaCas = "Set", "" // the property is about the regular write API
+		}
+		name := fmt.Sprintf("W%d", lane)
+		lane++
+		st := SStep{Do: "start", Lane: name, Op: &op}
+		if park && parkedW == "" && chance(rt, 40, "cp.park") {
+			st.Arm = []string{"cas.beforePost"}
+			parkedW = name
+		}
+		sc.Steps = append(sc.Steps, st)
+	}
 	for i := 0; i < n; i++ {
 		choices := []string{"write", "write", "gateCb"}
 		if !feedOn {
 			choices = append(choices, "startFeed", "startFeed", "midDeliveryStop")
+			if multi {
+				choices = append(choices, "staggeredStop", "staggeredStop")
+			}
 		} else {
 			choices = append(choices, "stopFeed", "stopFeed")
 		}
@@ -867,18 +923,7 @@ func genCheckpointScript(rt *rapid.T) *Script {
 		}
 		switch pick(rt, choices, "cp.step") {
 		case "write", "writePark":
-			op := genLaneOp(rt, lane, keys, 1)
-			if op.K == "SetWithMeta" {
-				op.K, op.MetaCas = "Set", "" // the property is about the regular write API
-			}
-			name := fmt.Sprintf("W%d", lane)
-			lane++
-			st := SStep{Do: "start", Lane: name, Op: &op}
-			if parkedW == "" && chance(rt, 40, "cp.park") {
-				st.Arm = []string{"cas.beforePost"}
-				parkedW = name
-			}
-			sc.Steps = append(sc.Steps, st)
+			write(true)
 		case "resumeW":
 			sc.Steps = append(sc.Steps, SStep{Do: "resume", Lane: parkedW})
 			parkedW = ""
@@ -893,16 +938,41 @@ func genCheckpointScript(rt *rapid.T) *Script {
 			sc.Steps = append(sc.Steps, SStep{Do: "stopFeed"})
 			feedOn = false
 		case "gateCb":
-			sc.Steps = append(sc.Steps, SStep{Do: "gateCb"})
-			gatedGen = !gatedGen
+			tg := gateTarget()
+			if tg == "" && anyGated() {
+				// "all" toggles everything open
+				sc.Steps = append(sc.Steps, SStep{Do: "openCb"})
+				gatedGen = map[string]bool{}
+				break
+			}
+			if gatedGen[tg] {
+				sc.Steps = append(sc.Steps, SStep{Do: "openCb", Lane: tg})
+			} else {
+				sc.Steps = append(sc.Steps, SStep{Do: "gateCb", Lane: tg})
+			}
+			gatedGen[tg] = !gatedGen[tg]
 		case "midDeliveryStop":
 			// start a run whose callback is held at its first event, stop it there, then let go:
 			// the run delivers one event of its backfill and drops the rest
-			if !gatedGen {
-				sc.Steps = append(sc.Steps, SStep{Do: "gateCb"})
+			sc.Steps = append(sc.Steps, SStep{Do: "openCb"}, SStep{Do: "gateCb"})
+			sc.Steps = append(sc.Steps, SStep{Do: "startFeed", Lane: fmt.Sprintf("F%d", i)}, SStep{Do: "stopFeed"}, SStep{Do: "openCb"})
+			gatedGen = map[string]bool{}
+		case "staggeredStop":
+			// several collections: every part of the feed is held in its callback with more events
+			// queued behind it, the feed is stopped, and the parts are let go one after the other
+			sc.Steps = append(sc.Steps, SStep{Do: "openCb"}, SStep{Do: "gateCb"}, SStep{Do: "startFeed", Lane: fmt.Sprintf("F%d", i)})
+			for k := rapid.IntRange(1, 4).Draw(rt, "cp.stagwrites"); k > 0; k-- {
+				write(false)
 			}
-			sc.Steps = append(sc.Steps, SStep{Do: "startFeed", Lane: fmt.Sprintf("F%d", i)}, SStep{Do: "stopFeed"}, SStep{Do: "gateCb"})
-			gatedGen = false
+			sc.Steps = append(sc.Steps, SStep{Do: "stopFeed"})
+			order := append([]int{}, fcolls...)
+			if chance(rt, 50, "cp.stagorder") {
+				order[0], order[1] = order[1], order[0]
+			}
+			for _, ci := range order {
+				sc.Steps = append(sc.Steps, SStep{Do: "openCb", Lane: fmt.Sprint(ci)}, SStep{Do: "pause"})
+			}
+			gatedGen = map[string]bool{}
 		}
 	}
 	return sc
@@ -920,43 +990,82 @@ func runCheckpointScript(sc *Script) (devs []Deviation, sr *scriptRun, err error
 	}
 	defer sr.close()
 	w := sr.run.W
+	fcolls := cpFeedColls(sc)
+	multi := len(fcolls) > 1
+	collOf := map[uint32]int{}
+	for _, ci := range fcolls {
+		collOf[w.Coll(0, ci).GetCollectionID()] = ci
+	}
 	c15 := []string{"C15"}
 	bad := func(clause, f string, a ...any) {
 		devs = append(devs, Deviation{Clause: clause, Props: c15, Sig: clause, Msg: fmt.Sprintf(f, a...) + fmt.Sprintf(" (script: %v)", sr.log)})
 	}
-	readCp := func() uint64 {
+	readCp := func(ci int) uint64 {
 		var cp struct {
 			LastSeq uint64 `json:"last_seq"`
 		}
-		if _, err := w.Coll(0, 0).Get("cp:cpfeed", &cp); err != nil {
+		if _, err := w.Coll(0, ci).Get("cp:cpfeed", &cp); err != nil {
 			return 0
 		}
 		return cp.LastSeq
 	}
+	readCps := func() map[int]uint64 {
+		m := map[int]uint64{}
+		for _, ci := range fcolls {
+			m[ci] = readCp(ci)
+		}
+		return m
+	}
+	feedArgs := func(c *Collector, dump bool) sgbucket.FeedArguments {
+		args := sgbucket.FeedArguments{ID: "cpfeed", Backfill: sgbucket.FeedResume, Dump: dump, Terminator: c.term, DoneChan: c.done, CheckpointPrefix: "cp"}
+		if multi {
+			args.Scopes = map[string][]string{}
+			for _, ci := range fcolls {
+				n := dsName(w.Cfg.Colls[ci])
+				args.Scopes[n.Scope] = append(args.Scopes[n.Scope], n.Collection)
+			}
+		}
+		return args
+	}
+	start := func(args sgbucket.FeedArguments, cb sgbucket.FeedEventCallbackFunc) error {
+		if multi {
+			return w.Handles[0].StartDCPFeed(ctx, args, cb, nil)
+		}
+		return w.RColl(0, fcolls[0]).StartDCPFeed(ctx, args, cb, nil)
+	}
+	evColl := func(ev sgbucket.FeedEvent) int {
+		if !multi {
+			return fcolls[0]
+		}
+		return collOf[ev.CollectionID]
+	}
+	dkey := func(ci int, k string) string { return fmt.Sprintf("%d/%s", ci, k) }
 	var runs []*cpRun
 	var cur *cpRun
-	delivered := map[string]map[uint64]bool{} // key -> CAS values some run delivered
+	delivered := map[string]map[uint64]bool{} // collection/key -> CAS values some run delivered
 	var dmu sync.Mutex
 	startFeed := func(lane string, arm []string, dump bool) {
-		r := &cpRun{prevCp: readCp()}
+		r := &cpRun{prevCp: readCps(), maxCas: map[int]uint64{}}
 		var col *Collector
 		status := sr.s.Start(lane, arm, func() {
-			c := &Collector{Cfg: FeedCfg{}, w: w, term: make(chan bool), done: make(chan struct{}), colls: []int{0}}
+			c := &Collector{Cfg: FeedCfg{}, w: w, term: make(chan bool), done: make(chan struct{}), colls: fcolls}
 			c.cond = sync.NewCond(&c.mu)
-			args := sgbucket.FeedArguments{ID: "cpfeed", Backfill: sgbucket.FeedResume, Dump: dump, Terminator: c.term, DoneChan: c.done, CheckpointPrefix: "cp"}
 			cb := func(ev sgbucket.FeedEvent) bool {
-				if ev.Opcode == sgbucket.FeedOpMutation || ev.Opcode == sgbucket.FeedOpDeletion {
-					sr.s.onHook("feed.callback", w.Name) // can be held at a gate (document events only, not the backfill markers)
+				isDoc := ev.Opcode == sgbucket.FeedOpMutation || ev.Opcode == sgbucket.FeedOpDeletion
+				ci := evColl(ev)
+				if isDoc {
+					// can be held at a gate (document events only, not the backfill markers), per collection
+					sr.s.onHook(fmt.Sprintf("feed.callback.%d", ci), w.Name)
 				}
 				dmu.Lock()
-				if ev.Opcode == sgbucket.FeedOpMutation || ev.Opcode == sgbucket.FeedOpDeletion {
-					k := string(ev.Key)
+				if isDoc {
+					k := dkey(ci, string(ev.Key))
 					if delivered[k] == nil {
 						delivered[k] = map[uint64]bool{}
 					}
 					delivered[k][ev.Cas] = true
-					if ev.Cas > r.maxCas {
-						r.maxCas = ev.Cas
+					if ev.Cas > r.maxCas[ci] {
+						r.maxCas[ci] = ev.Cas
 					}
 					r.received++
 				}
@@ -964,7 +1073,7 @@ func runCheckpointScript(sc *Script) (devs []Deviation, sr *scriptRun, err error
 				return true
 			}
 			go func() { <-c.done; c.doneClosed.Store(true) }()
-			if e := w.RColl(0, 0).StartDCPFeed(ctx, args, cb, nil); e != nil {
+			if e := start(feedArgs(c, dump), cb); e != nil {
 				sr.mu.Lock()
 				sr.log = append(sr.log, "StartDCPFeed error: "+e.Error())
 				sr.mu.Unlock()
@@ -1008,7 +1117,7 @@ func runCheckpointScript(sc *Script) (devs []Deviation, sr *scriptRun, err error
 		}
 		return nil
 	}
-	// awaitDone: the run has ended and written its checkpoint; check the checkpoint clause
+	// awaitDone: the run has ended and written its checkpoint(s); check the checkpoint clause
 	awaitDone := func(r *cpRun) {
 		c := collector(r)
 		if c == nil {
@@ -1020,23 +1129,33 @@ func runCheckpointScript(sc *Script) (devs []Deviation, sr *scriptRun, err error
 			bad("cp.done", "a stopped feed never closed its done channel")
 			return
 		}
-		cp := readCp()
-		dmu.Lock()
-		max := r.maxCas
-		dmu.Unlock()
-		hi := max
-		if r.prevCp > hi {
-			hi = r.prevCp
-		}
-		if cp > hi {
-			bad("cp.ahead", "the checkpoint after a run is %#x, but the highest CAS that run's callback received is %#x (previous checkpoint %#x)", cp, max, r.prevCp)
-		}
-		if cp < r.prevCp {
-			bad("cp.back", "the checkpoint went backwards: %#x after %#x", cp, r.prevCp)
+		for _, ci := range fcolls {
+			cp := readCp(ci)
+			dmu.Lock()
+			max := r.maxCas[ci]
+			dmu.Unlock()
+			hi := max
+			if r.prevCp[ci] > hi {
+				hi = r.prevCp[ci]
+			}
+			if cp > hi {
+				bad("cp.ahead", "the checkpoint of %s after a run is %#x, but the highest CAS that run's callback received for that collection is %#x (previous checkpoint %#x)", w.Cfg.Colls[ci], cp, max, r.prevCp[ci])
+			}
+			if cp < r.prevCp[ci] {
+				bad("cp.back", "the checkpoint of %s went backwards: %#x after %#x", w.Cfg.Colls[ci], cp, r.prevCp[ci])
+			}
 		}
 	}
 	var pendingStops []*cpRun
-	gated := false
+	gated := map[int]bool{}
+	targets := func(lane string) []int {
+		if lane == "" {
+			return fcolls
+		}
+		var ci int
+		fmt.Sscanf(lane, "%d", &ci)
+		return []int{ci}
+	}
 	for _, st := range sc.Steps {
 		switch st.Do {
 		case "startFeed":
@@ -1073,22 +1192,45 @@ func runCheckpointScript(sc *Script) (devs []Deviation, sr *scriptRun, err error
 						// ended promptly: the checkpoint document now is this run's checkpoint
 						awaitDone(cur)
 					case <-time.After(300 * time.Millisecond):
-						// its exit is blocked (checkpoint write behind a parked writer): only the
-						// global checkpoint clause at the end applies to it
+						// its exit is blocked (checkpoint write behind a parked writer, or a part held
+						// in its callback): only the global checkpoint clause at the end applies to it
 						pendingStops = append(pendingStops, cur)
 					}
 				}
 			}
 		case "gateCb":
-			if !gated {
-				sr.s.Gate("feed.callback")
-				gated = true
-				sr.log = append(sr.log, "gateCb")
-			} else {
-				sr.s.OpenGate("feed.callback")
-				gated = false
-				sr.log = append(sr.log, "openCb")
+			if st.Lane == "" {
+				// (older replay files use one toggling step)
+				all := true
+				for _, ci := range fcolls {
+					all = all && gated[ci]
+				}
+				if all {
+					for _, ci := range fcolls {
+						sr.s.OpenGate(fmt.Sprintf("feed.callback.%d", ci))
+						gated[ci] = false
+					}
+					sr.log = append(sr.log, "openCb")
+					continue
+				}
 			}
+			for _, ci := range targets(st.Lane) {
+				if !gated[ci] {
+					sr.s.Gate(fmt.Sprintf("feed.callback.%d", ci))
+					gated[ci] = true
+				}
+			}
+			sr.log = append(sr.log, "gateCb "+st.Lane)
+		case "openCb":
+			for _, ci := range targets(st.Lane) {
+				if gated[ci] {
+					sr.s.OpenGate(fmt.Sprintf("feed.callback.%d", ci))
+					gated[ci] = false
+				}
+			}
+			sr.log = append(sr.log, "openCb "+st.Lane)
+		case "pause":
+			time.Sleep(60 * time.Millisecond) // lets a released part of the feed end before the next one is released
 		default:
 			if sr.step(st) == "hang" {
 				bad("script.hang", "lane %s hangs", st.Lane)
@@ -1096,8 +1238,10 @@ func runCheckpointScript(sc *Script) (devs []Deviation, sr *scriptRun, err error
 			}
 		}
 	}
-	if gated {
-		sr.s.OpenGate("feed.callback")
+	for ci, g := range gated {
+		if g {
+			sr.s.OpenGate(fmt.Sprintf("feed.callback.%d", ci))
+		}
 	}
 	if hung := sr.finishAll(); hung != nil {
 		bad("script.hang", "lanes %v never finished", hung)
@@ -1123,25 +1267,27 @@ func runCheckpointScript(sc *Script) (devs []Deviation, sr *scriptRun, err error
 	}
 	// final run: resume from the checkpoint as a dump; together the runs must have delivered the
 	// final version of every document
-	final := &cpRun{prevCp: readCp()}
-	fc := &Collector{Cfg: FeedCfg{}, w: w, term: make(chan bool), done: make(chan struct{}), colls: []int{0}}
+	final := &cpRun{prevCp: readCps(), maxCas: map[int]uint64{}}
+	fc := &Collector{Cfg: FeedCfg{}, w: w, term: make(chan bool), done: make(chan struct{}), colls: fcolls}
 	fc.cond = sync.NewCond(&fc.mu)
-	args := sgbucket.FeedArguments{ID: "cpfeed", Backfill: sgbucket.FeedResume, Dump: true, DoneChan: fc.done, CheckpointPrefix: "cp"}
-	if e := w.RColl(0, 0).StartDCPFeed(ctx, args, func(ev sgbucket.FeedEvent) bool {
+	fargs := feedArgs(fc, true)
+	fargs.Terminator = nil
+	if e := start(fargs, func(ev sgbucket.FeedEvent) bool {
 		if ev.Opcode == sgbucket.FeedOpMutation || ev.Opcode == sgbucket.FeedOpDeletion {
-			k := string(ev.Key)
+			ci := evColl(ev)
+			k := dkey(ci, string(ev.Key))
 			dmu.Lock()
 			if delivered[k] == nil {
 				delivered[k] = map[uint64]bool{}
 			}
 			delivered[k][ev.Cas] = true
-			if ev.Cas > final.maxCas {
-				final.maxCas = ev.Cas
+			if ev.Cas > final.maxCas[ci] {
+				final.maxCas[ci] = ev.Cas
 			}
 			dmu.Unlock()
 		}
 		return true
-	}, nil); e != nil {
+	}); e != nil {
 		bad("cp.start", "final StartDCPFeed(resume, dump) failed: %v", e)
 		return
 	}
@@ -1155,34 +1301,41 @@ func runCheckpointScript(sc *Script) (devs []Deviation, sr *scriptRun, err error
 		return // no resumable run before the final one: nothing about resuming to judge
 	}
 	// the persisted checkpoint never exceeds the highest CAS the feed (all its runs) delivered
-	var maxDelivered uint64
-	dmu.Lock()
-	for _, m := range delivered {
-		for c := range m {
-			if c > maxDelivered {
-				maxDelivered = c
-			}
-		}
-	}
-	dmu.Unlock()
-	if cp := readCp(); cp > maxDelivered {
-		bad("cp.ahead", "the final checkpoint is %#x but the highest CAS any run delivered is %#x", cp, maxDelivered)
-	}
-	for _, k := range []string{"a", "b", "c", "d"} {
-		st, _ := Observe(w.Coll(0, 0), k, []string{"_sync"})
-		if !st.Present {
-			continue
-		}
+	for _, ci := range fcolls {
+		var maxDelivered uint64
 		dmu.Lock()
-		ok := delivered[k][st.Cas]
-		dmu.Unlock()
-		if !ok {
-			var seen []string
-			for c := range delivered[k] {
-				seen = append(seen, fmt.Sprintf("%#x", c))
+		for k, m := range delivered {
+			if !strings.HasPrefix(k, fmt.Sprintf("%d/", ci)) {
+				continue
 			}
-			sort.Strings(seen)
-			bad("cp.skipped", "the final version of %q (cas %#x) was delivered by none of the %d runs of the checkpointed feed (delivered CAS values for the key: %v)", k, st.Cas, len(runs)+1, seen)
+			for c := range m {
+				if c > maxDelivered {
+					maxDelivered = c
+				}
+			}
+		}
+		dmu.Unlock()
+		if cp := readCp(ci); cp > maxDelivered {
+			bad("cp.ahead", "the final checkpoint of %s is %#x but the highest CAS any run delivered for that collection is %#x", w.Cfg.Colls[ci], cp, maxDelivered)
+		}
+	}
+	for _, ci := range fcolls {
+		for _, k := range []string{"a", "b", "c", "d"} {
+			st, _ := Observe(w.Coll(0, ci), k, []string{"_sync"})
+			if !st.Present {
+				continue
+			}
+			dmu.Lock()
+			ok := delivered[dkey(ci, k)][st.Cas]
+			dmu.Unlock()
+			if !ok {
+				var seen []string
+				for c := range delivered[dkey(ci, k)] {
+					seen = append(seen, fmt.Sprintf("%#x", c))
+				}
+				sort.Strings(seen)
+				bad("cp.skipped", "the final version of %s/%q (cas %#x) was delivered by none of the %d runs of the checkpointed feed (delivered CAS values for the key: %v)", w.Cfg.Colls[ci], k, st.Cas, len(runs)+1, seen)
+			}
 		}
 	}
 	return
